@@ -58,7 +58,9 @@ def run(prog, rep):
         rep.unresolved("C19-R1", "functions", "", f"converter functions not found: {[n for n in need if n not in fns]}")
         return
     opaque = [fns[n].path for n in ("flatten_fn_update", "explode_function", "flatten_update_function")]
-    eng = terms.Engine(prog, inline=True, hooks=E.Hooks([""], opaque_names=opaque)) if False else terms.Engine(prog, inline=False)
+    # private helpers of the converter (other than its three recursive functions) are inlined
+    helpers = [f.path for f in prog.fns.values() if f.crate == BIN and not f.derived and f.name not in need]
+    eng = terms.Engine(prog, inline=True, hooks=E.Hooks([], inline_names=helpers))
     ff, fu, ex, mn = (fns[n] for n in ("flatten_fn_update", "flatten_update_function", "explode_function", "main"))
     for f in (ff, fu, ex, mn):
         rep.functions.add(f.qual)
